@@ -19,6 +19,7 @@ SPEC = {
                        ("G(0..5) x A2", [["--n", n, "--alpha", "A2"] for n in range(0, 6)]),
                        ("G(4) x A3", [["--n", 4, "--alpha", "A3"]]), ("G(5) x A3", [["--n", 5, "--alpha", "A3"]]),
                        ("G(4) x A3 plus one more component = a single edge weighing 2^60", [["--n", 4, "--alpha", "A3", "--plus-heavy-k2"]]),
+                       ("weights with 26 significant bits: G(4) x B3, G(5) x B2", [["--n", 4, "--alpha", "B3"], ["--n", 5, "--alpha", "B2"]]),
                        ("reversed / alternating edge orientation: G(4) x A3, G(5) x A2", [["--n", 4, "--alpha", "A3", "--orient", 1], ["--n", 5, "--alpha", "A2", "--orient", 1], ["--n", 5, "--alpha", "A2", "--orient", 2]]),
                        ("blob grammar K=3,T=2 x patterns M2, M3", [["--grammar", "blobs:3:2", "--alpha", "M2"], ["--grammar", "blobs:3:2", "--alpha", "M3"]]),
                        ("tie-heavy families x U", [["--families", FAMS_TIES, "--alpha", "U"]]),
@@ -44,6 +45,7 @@ SPEC = {
                      "distinct_nontrivial = distinct (graph, weighting) with cycle space dimension >= 1",
                 quick=[("G(0..4) x A3", [["--n", n, "--alpha", "A3"] for n in range(0, 5)]), ("G(5) x A2", [["--n", 5, "--alpha", "A2"]]),
                        ("G(4) x A3 plus one more component = a single edge weighing 2^60", [["--n", 4, "--alpha", "A3", "--plus-heavy-k2"]]),
+                       ("weights with 26 significant bits: G(4) x B3, G(5) x B2", [["--n", 4, "--alpha", "B3"], ["--n", 5, "--alpha", "B2"]]),
                        ("G(5) x U", [["--n", 5, "--alpha", "U"]]), ("G(5) x A3", [["--n", 5, "--alpha", "A3"]]),
                        ("reversed / alternating edge orientation: G(4) x A3, G(5) x A2", [["--n", 4, "--alpha", "A3", "--orient", 1], ["--n", 5, "--alpha", "A2", "--orient", 1], ["--n", 5, "--alpha", "A2", "--orient", 2]]),
                        ("blob grammar K=3,T=2 x patterns M2, M3", [["--grammar", "blobs:3:2", "--alpha", "M2"], ["--grammar", "blobs:3:2", "--alpha", "M3"]]),
@@ -73,7 +75,7 @@ def _build():
 def run(prop, tier):
     sp = SPEC[prop]
     c = vlib.Check(prop, tier, "exploration", sp["rule"], "components")
-    c.deadline = 110 if tier == "quick" else 1500
+    c.deadline = 170 if tier == "quick" else 1500
     c.assumptions = ["oracles (Floyd-Warshall, union-find, all-simple-cycles reference) are independent of parmcb and exact on integer/dyadic weights"]
     binary = _build()
     c.builds_done()
